@@ -296,7 +296,23 @@ def geometry_cases(draw, tier="quick"):
         r = draw(st.sampled_from([None, 1, 2.5, 0.5, 7]))
         if r is not None:
             spec["meta"]["radius"] = r
-    return {"spec": spec, "full": full, "by": draw(st.sampled_from(["index", "name"])), "merge_axis": draw(st.integers(0, 3)), "merge_amount": draw(st.integers(2, 3)),
+    merge_axis, merge_amount = draw(st.integers(0, 3)), draw(st.integers(2, 3))
+    if name in ("Histogram1D", "Histogram2D", "HistogramND") and draw(st.integers(0, 3)) == 0:
+        # an axis whose gaps sit exactly between the runs of a merge: the merge is accepted and must keep the gaps
+        k_ = draw(st.integers(0, d - 1))
+        n_ = len(axes[k_]["pairs"])
+        amt_ = draw(st.integers(2, 3))
+        e_, ps_ = draw(st.sampled_from([0.0, -3.0, 10.0])), []
+        for i_ in range(n_):
+            if i_ and i_ % amt_ == 0:
+                e_ += draw(st.sampled_from([0.5, 1.0, 2.0]))  # a gap between two runs
+            w_ = draw(st.sampled_from([0.5, 1.0, 1.5, 2.5]))
+            ps_.append([e_, e_ + w_])
+            e_ += w_
+        axes[k_] = {"form": draw(st.sampled_from(["static", "pairs"])), "pairs": ps_, "incl": True}
+        spec["axes"] = axes
+        merge_axis, merge_amount = k_, amt_
+    return {"spec": spec, "full": full, "by": draw(st.sampled_from(["index", "name"])), "merge_axis": merge_axis, "merge_amount": merge_amount,
             "select": draw(st.lists(st.integers(0, 9), min_size=1, max_size=4)), "select_mask": draw(st.sampled_from([None, True]))}
 
 
